@@ -3,15 +3,35 @@
 import json
 import os
 
+import sys
+
 VERIF = os.path.dirname(os.path.dirname(os.path.abspath(__file__)))
+COMPACT = "--compact" in sys.argv
 root = os.path.join(VERIF, "seeded")
-print("| seed | property | what the change does (needs) | caught by |")
-print("|---|---|---|---|")
-for name in sorted(os.listdir(root)):
+def natural(name):
+    a, b = name.split("-")
+    return (a, int(b))
+
+
+if COMPACT:
+    print("| seed | round | what it needs in order to manifest | caught by |")
+    print("|---|---|---|---|")
+else:
+    print("| seed | property | what the change does (needs) | caught by |")
+    print("|---|---|---|---|")
+for name in sorted((n for n in os.listdir(root) if os.path.exists(os.path.join(root, n, "meta.json"))), key=natural):
     mp = os.path.join(root, name, "meta.json")
-    if not os.path.exists(mp):
-        continue
     m = json.load(open(mp))
+    if COMPACT:
+        needs = (m.get("needs") or m.get("summary") or "").replace("\n", " ").replace("|", "/")
+        n = int(name.split("-")[1])
+        rnd = m.get("round") or (1 if n <= 2 else 2 if n <= 4 else 3 if n <= 7 else 4)
+        held = m.get("heldout", {}).get("result")
+        caught = ", ".join(m.get("caught_by") or []) or "**missed**"
+        if held is not None and "caught" not in held.values():
+            caught += " (missed in the held-out run)"
+        print(f"| {name} | {rnd} | {needs[:150]}{'...' if len(needs) > 150 else ''} | {caught} |")
+        continue
     summ = (m.get("summary") or "").replace("\n", " ").replace("|", "/")
     needs = (m.get("needs") or "").replace("\n", " ").replace("|", "/")
     txt = summ[:150] + ("..." if len(summ) > 150 else "")
